@@ -149,6 +149,8 @@ def check(prop: str, tier: str) -> int:
     nontrivial_sigs = set()
     samples = []
     digests = {}
+    world_digests = {}
+    world_violations = []
     new_violations = []   # (case, violation)
     known_seen = {}
     harness_msgs = []
@@ -190,6 +192,8 @@ def check(prop: str, tier: str) -> int:
                 if len(samples) < 3 and res.get("sample") is not None:
                     samples.append(res["sample"])
             digests[k] = res.get("digest")
+            if res.get("world_digest") is not None:
+                world_digests[k] = res.get("world_digest")
             for v in relevant(res, prop):
                 e = match_known(v, known)
                 if e is not None:
@@ -227,8 +231,8 @@ def check(prop: str, tier: str) -> int:
                 got = {}
                 for line in out.stdout.splitlines():
                     if line.startswith("DIGEST "):
-                        _, kk, dd = line.split()
-                        got[int(kk)] = dd
+                        parts = line.split()
+                        got[int(parts[1])] = parts[2]
                 for k in pickf:
                     det["rerun_fresh_interpreter"] += 1
                     if got.get(k) != digests[k]:
@@ -239,6 +243,37 @@ def check(prop: str, tier: str) -> int:
             except Exception as e:  # pragma: no cover
                 det["mismatches"] += 1
                 harness_msgs.append("determinism: fresh interpreter run failed: %r" % (e,))
+
+    # ---- other worlds: fresh interpreters under other PYTHONHASHSEED values (engines that assert determinism) ----
+    worlds = {"hashseeds": [], "compared": 0, "mismatches": 0}
+    if getattr(engine, "WORLD_HASHSEEDS", None) and world_digests and not os.environ.get("VERIF_NO_FRESH"):
+        idxs = sorted(world_digests)
+        nsample = max(2, int(len(idxs) * float(cfg.get("world_fraction", 0.1))))
+        pickw = idxs[:: max(1, len(idxs) // nsample)][:nsample]
+        for hs in engine.WORLD_HASHSEEDS:
+            env = dict(os.environ)
+            env["PYTHONHASHSEED"] = hs
+            env["VERIF_HASHSEED"] = hs
+            cmd = [sys.executable, os.path.join(VERIF, "sim", "cli.py"), "digests", prop, tier] + [str(k) for k in pickw]
+            out = subprocess.run(cmd, env=env, capture_output=True, text=True, timeout=3000)
+            got = {}
+            for line in out.stdout.splitlines():
+                if line.startswith("DIGEST "):
+                    parts = line.split()
+                    got[int(parts[1])] = parts[3] if len(parts) > 3 else None
+            worlds["hashseeds"].append(hs)
+            for k in pickw:
+                worlds["compared"] += 1
+                if got.get(k) is None:
+                    harness_msgs.append("world run under PYTHONHASHSEED=%s gave no digest for run %d: %s" % (hs, k, out.stderr[-300:]))
+                elif got[k] != world_digests[k]:
+                    worlds["mismatches"] += 1
+                    case = make_case(engine, prop, seed, k, tier)
+                    world_violations.append((case, {"property": prop,
+                                                    "clause": "result differs under another PYTHONHASHSEED (not deterministic)",
+                                                    "key": {"hashseed": hs},
+                                                    "detail": {"base_hashseed": os.environ.get("PYTHONHASHSEED"),
+                                                               "base_digest": world_digests[k], "other_digest": got[k]}}))
 
     # ---- violations: confirm, shrink, write replay ------------------------------
     reported = []
@@ -259,6 +294,18 @@ def check(prop: str, tier: str) -> int:
         path = confirm_shrink_write(engine, prop, case, v, harness_msgs)
         if path:
             reported.append((v, path))
+
+    for case, v in world_violations[:2]:
+        doc = {"property": prop, "seed": case.get("seed"), "run": case.get("run"), "tree": tree_id(), "engine": engine.__name__,
+               "case": case, "original_units": engine.units(case), "minimised_units": engine.units(case),
+               "violation": {"property": prop, "clause": v["clause"], "key": v["key"], "detail": v["detail"]},
+               "world_check": {"hashseed": v["key"]["hashseed"]}}
+        os.makedirs(os.path.join(VERIF, "replays"), exist_ok=True)
+        path = os.path.join(VERIF, "replays", "%s-%s-%s-world.json" % (prop, case.get("seed"), case.get("run")))
+        with open(path, "w") as f:
+            json.dump(doc, f, indent=1, sort_keys=True, default=str)
+        seen_classes.add(vclass(v))
+        reported.append((v, path))
 
     wall = time.time() - t0
     # ---- evidence ----------------------------------------------------------------
@@ -281,6 +328,7 @@ def check(prop: str, tier: str) -> int:
         "components": engine.COMPONENTS,
         "hashseed_harness": os.environ.get("PYTHONHASHSEED"),
         "determinism_selftest": det,
+        "worlds_other_hashseeds": worlds,
         "known_findings_seen": {kid: ks["count"] for kid, ks in known_seen.items()},
         "wall_capped": capped,
         "tree": tree_id(),
@@ -391,6 +439,20 @@ def replay(path: str) -> int:
     if status != "ok":
         print("HARNESS-ERROR replay run failed: %s" % (r,))
         return 3
+    if doc.get("world_check"):
+        hs = doc["world_check"]["hashseed"]
+        env = dict(os.environ)
+        env["PYTHONHASHSEED"] = hs
+        env["VERIF_HASHSEED"] = hs
+        out = subprocess.run([sys.executable, os.path.join(VERIF, "sim", "cli.py"), "worlddigest", path], env=env,
+                             capture_output=True, text=True, timeout=3000)
+        other = [ln.split()[1] for ln in out.stdout.splitlines() if ln.startswith("WORLD ")]
+        print("world digest here=%s under PYTHONHASHSEED=%s: %s" % (r.get("world_digest"), hs, other))
+        if other and other[0] != r.get("world_digest"):
+            print("VIOLATION property=%s replay=%s" % (prop, path))
+            return 1
+        print("replay: no violation (same result under both hash seeds)")
+        return 0
     want = vclass(doc["violation"])
     got = relevant(r, prop)
     known = load_known(prop)
@@ -423,5 +485,17 @@ def digests(prop: str, tier: str, indices) -> int:
     cases = [make_case(engine, prop, seed, k, tier) for k in indices]
     results = run_cases(engine, cases, workers=min(4, len(cases)))
     for k, (status, res) in zip(indices, results):
-        print("DIGEST %d %s" % (k, res.get("digest") if status == "ok" else "ERR"))
+        print("DIGEST %d %s %s" % (k, res.get("digest") if status == "ok" else "ERR",
+                                   (res.get("world_digest") or "-") if status == "ok" else "-"))
+    return 0
+
+
+def worlddigest(path: str) -> int:
+    with open(path) as f:
+        doc = json.load(f)
+    engine = load_engine(doc["property"])
+    import_frame()
+    engine.setup()
+    status, r = run_cases(engine, [doc["case"]])[0]
+    print("WORLD %s" % (r.get("world_digest") if status == "ok" else "ERR"))
     return 0
